@@ -944,7 +944,7 @@ def _run_fuzz_job(a):
     out = os.path.join(jobdir, "oracle.tsv")
     e = dict(env)
     e["C05_FUZZ_OUT"] = out
-    cmd = [exe, "-runs=%d" % runs, "-seed=%d" % seed, "-max_len=1024", "-timeout=120", "-rss_limit_mb=4096",
+    cmd = [exe, "-runs=%d" % runs, "-seed=%d" % seed, "-max_len=1024", "-timeout=600", "-rss_limit_mb=4096",
            "-print_final_stats=1", "-dict=" + dictf, "-artifact_prefix=" + jobdir + "/", corpus]
     t0 = time.time()
     with open(os.path.join(jobdir, "log"), "wb") as lf:
@@ -962,7 +962,7 @@ def fuzz_stage(ctx, st):
     quick = ctx["tier"] == "quick"
     exe = build.build_harness("c05_fuzz", "fuzz", extra_link=["-fsanitize=fuzzer"])
     jobs = 4 if quick else 16
-    runs = 50000 if quick else 2000000
+    runs = 50000 if quick else 500000
     wd = ctx["workdir"]
     seeds = sorted(glob.glob(os.path.join(wd, "c05.corpus", "*")))
     if not seeds:
@@ -977,7 +977,7 @@ def fuzz_stage(ctx, st):
         for i, s in enumerate(seeds):
             if i % jobs == j or i % 7 == 0:
                 shutil.copy(s, os.path.join(jd, "corpus", os.path.basename(s)))
-        args.append((exe, jd, runs, ctx["seed"] * 100 + j + 1, env, 600 if quick else 7200, os.path.join(wd, "c05.dict")))
+        args.append((exe, jd, runs, ctx["seed"] * 100 + j + 1, env, 3600 if quick else 21600, os.path.join(wd, "c05.dict")))
     res = driver.empty_result()
     with multiprocessing.pool.ThreadPool(jobs) as pool:
         outs = pool.map(_run_fuzz_job, args)
@@ -1013,11 +1013,11 @@ def fuzz_stage(ctx, st):
             if art and os.path.basename(art).startswith("timeout"):
                 # a hang is re-run once before it is reported
                 try:
-                    subprocess.run([exe, art], env=env, timeout=600, stdout=subprocess.DEVNULL, stderr=subprocess.DEVNULL)
+                    subprocess.run([exe, art], env=env, timeout=1800, stdout=subprocess.DEVNULL, stderr=subprocess.DEVNULL)
                     res["counters"]["fuzz_timeout_not_reproduced"] = res["counters"].get("fuzz_timeout_not_reproduced", 0) + 1
                     continue
                 except subprocess.TimeoutExpired:
-                    fatal = [("totality:hang", "parse did not finish within 600 s on a <=1 KiB input")]
+                    fatal = [("totality:hang", "parse did not finish within 1800 s on a <=1 KiB input (after a 600 s libFuzzer timeout)")]
             if not fatal:
                 if o["rc"] == -9:
                     raise driver.Inconclusive("c05-fuzz: job %d hit the watchdog\n%s" % (j, o["log"][-2000:]))
